@@ -12,10 +12,18 @@ MAX_SAMPLES = 6
 MAX_SET = 4000
 
 
+def _repr(o):
+    """repr() that cannot fail (values under test may refuse to be printed)"""
+    try:
+        return repr(o)[:200]
+    except Exception:  # noqa: BLE001
+        return "<%s that cannot be printed>" % type(o).__name__
+
+
 def jsonable(o, depth=0):
     """Stable, JSON-able rendering of arbitrary case data (bytes -> hex)."""
     if depth > 8:
-        return repr(o)[:200]
+        return _repr(o)
     if isinstance(o, (bytes, bytearray, memoryview)):
         b = bytes(o)
         if len(b) > 96:
@@ -24,10 +32,10 @@ def jsonable(o, depth=0):
     if isinstance(o, bool) or o is None or isinstance(o, (int, float, str)):
         return o
     if isinstance(o, dict):
-        return {str(k): jsonable(v, depth + 1) for k, v in o.items()}
+        return {(k if isinstance(k, str) else _repr(k)): jsonable(v, depth + 1) for k, v in o.items()}
     if isinstance(o, (list, tuple, set, frozenset)):
         return [jsonable(v, depth + 1) for v in o]
-    return repr(o)[:200]
+    return _repr(o)
 
 
 class Ctx:
